@@ -6,21 +6,25 @@ import (
 	"fmt"
 	"go/types"
 	"math/big"
+	"sort"
 	"strconv"
 	"strings"
 )
 
 type CEnv struct {
-	st     *State
-	oldMem map[string]*MemVer // memories of the pre-state (for old(...))
-	vars   map[string]V
-	prove  bool // positive-polarity foralls are Skolemised
-	tparam map[string]types.Type
-	inOld  bool
-	pol    bool // current polarity (true = positive)
-	fn     string
-	skolems map[*CExpr]V // forall nodes Skolemised ahead of time (at function entry)
-	harvest bool         // collect instantiation terms instead of building formulas
+	st        *State
+	oldMem    map[string]*MemVer // memories of the pre-state (for old(...))
+	vars      map[string]V
+	prove     bool // positive-polarity foralls are Skolemised
+	tparam    map[string]types.Type
+	inOld     bool
+	pol       bool // current polarity (true = positive)
+	fn        string
+	skolems   map[*CExpr]V       // forall nodes Skolemised ahead of time (at function entry)
+	harvest   bool               // collect instantiation terms instead of building formulas
+	curMem    map[string]*MemVer // frozen "current" memories (late instantiation of an earlier assumption)
+	onlyTerm  map[int]string     // late instantiation: instantiate foralls with this term only
+	sawForall bool               // an assume-side forall was instantiated while evaluating
 }
 
 type cerr struct{ msg string }
@@ -65,6 +69,11 @@ func untyped(n *big.Int) V { return V{K: KBV, W: 0, T: n.String(), Signed: true}
 func (env *CEnv) mem(space string) *MemVer {
 	if env.inOld && env.oldMem != nil {
 		if m, ok := env.oldMem[space]; ok {
+			return m
+		}
+	}
+	if env.curMem != nil {
+		if m, ok := env.curMem[space]; ok {
 			return m
 		}
 	}
@@ -170,7 +179,12 @@ func (env *CEnv) eval(e *CExpr) V {
 		}
 		v, ok := env.vars[e.Tok]
 		if !ok {
-			cfail("unknown identifier %s", e.Tok)
+			var have []string
+			for k := range env.vars {
+				have = append(have, k)
+			}
+			sort.Strings(have)
+			cfail("unknown identifier %s (known: %s)", e.Tok, strings.Join(have, " "))
 		}
 		return v
 	case "un":
@@ -219,10 +233,19 @@ func (env *CEnv) eval(e *CExpr) V {
 			if env.skolems != nil && env.harvest {
 				env.skolems[e] = env.vars[e.Var]
 			}
+			env.st.addPool(w, name) // earlier quantified assumptions are instantiated at the witness
 			return env.eval(e.Args[0])
 		}
 		if !env.prove && e.Op == "forall" && env.pol {
 			// assume side: instantiate with the harvested terms of this width
+			env.sawForall = true
+			if t, ok := env.onlyTerm[w]; env.onlyTerm != nil {
+				if !ok {
+					return vBool("true")
+				}
+				env.vars[e.Var] = vBV(t, w, signed)
+				return env.eval(e.Args[0])
+			}
 			if pool := env.st.pool[w]; len(pool) > 0 {
 				var cs []string
 				for _, t := range pool {
@@ -328,6 +351,18 @@ func (env *CEnv) evalPol(e *CExpr, flip bool) V {
 }
 
 func (env *CEnv) field(x V, name string) V {
+	if x.K == KPtr && x.Typ != nil {
+		if pt, ok := x.Typ.Underlying().(*types.Pointer); ok {
+			if st, ok := pt.Elem().Underlying().(*types.Struct); ok {
+				for i := 0; i < st.NumFields(); i++ {
+					if st.Field(i).Name() == name {
+						addr := vPtr(bvadd(x.T, bvLit(uint64(fieldOffset(st, i)), 64)), x.Prov)
+						return env.loadTyped(addr, st.Field(i).Type())
+					}
+				}
+			}
+		}
+	}
 	if x.K == KTuple {
 		switch name {
 		case "ptr", "data":
@@ -366,6 +401,7 @@ func seqEq(env *CEnv, a, b *Seq) string {
 	lenEq := eq(a.Len, b.Len)
 	if env.prove && env.pol {
 		j := env.st.freshConst("sk_j", sortBV(64))
+		env.st.addPool(64, j)
 		return and(lenEq, implies(app("bvult", j, a.Len), eq(a.Byte(j), b.Byte(j))))
 	}
 	env.st.x.fresh++
@@ -1070,4 +1106,23 @@ func (env *CEnv) ghostCall(e *CExpr) V {
 		return vTuple(results...)
 	}
 	return results[0]
+}
+
+// loadTyped reads a value of Go type t at addr in the memory current for this evaluation.
+func (env *CEnv) loadTyped(addr V, t types.Type) V {
+	space := spaceOf(addr, "H")
+	return build(t, func(ls leafShape) V {
+		a := bvadd(addr.T, bvLit(uint64(ls.Off), 64))
+		switch ls.K {
+		case KBool:
+			return vBool(not(eq(env.load8(space, a), bvLit(0, 8))))
+		case KPtr:
+			t := env.loadN(space, a, 8)
+			if ls.ByteElem {
+				return vPtr(t, &Prov{Space: "B", Region: "owned"})
+			}
+			return vPtr(t, &Prov{Space: "H", Region: "heap"})
+		}
+		return vBV(env.loadN(space, a, ls.W/8), ls.W, ls.Signed)
+	})
 }
